@@ -377,6 +377,44 @@ def r_chain(E):
             "R-CHAIN", "generate_optimized_attr_updates_chain sources",
             "the values to recompute no longer combine the chain of the recomputed objects (link edits) with the "
             "descendants of the edited values (numeric edits)", rel, fn.lineno, fn.name))
+    # 6. a link edit always recomputes the object whose link changes: every normal return of the two chain builders hands
+    #    back a chain that contains self.mod_objs_computation_chain (same members in another order, or with other
+    #    multiplicities, still change what the object computes)
+    from ..astutil import fully_expanded as _fx_cb, straightline_value as _slv_cb
+    for q in ("compute_mod_objs_computation_chain_from_old_and_new_lists",
+              "compute_mod_objs_computation_chain_from_old_and_new_modeling_objs"):
+        try:
+            rel_cb, f_cb = pm.find_function(MO, f"ModelingObject.{q}")
+        except AnalysisError:
+            continue
+        res.instances += 1
+        finder_cb = pm.any_helper_finder(rel_cb)
+        own = "self.mod_objs_computation_chain"
+        for r_ in [n for n in ast.walk(f_cb) if isinstance(n, ast.Return)]:
+            v = r_.value
+            texts = []
+            if v is not None:
+                e = _fx_cb(v, f_cb)
+                texts.append(norm(e))
+                for c_ in [x for x in ast.walk(e) if isinstance(x, ast.Call)]:
+                    hv = _slv_cb(c_, pm.helper_finder("ModelingObject"), finder_cb)
+                    if hv is not None:
+                        texts.append(norm(hv))
+                # a chain built by `chain += …` statements before the return
+                for nm in {x.id for x in ast.walk(e) if isinstance(x, ast.Name)}:
+                    for a_ in ast.walk(f_cb):
+                        if isinstance(a_, ast.AugAssign) and isinstance(a_.target, ast.Name) and a_.target.id == nm \
+                                and getattr(a_, "lineno", 0) <= getattr(r_, "lineno", 0):
+                            texts.append(norm(a_.value))
+                        if isinstance(a_, ast.Assign) and any(isinstance(t, ast.Name) and t.id == nm for t in a_.targets):
+                            texts.append(norm(_fx_cb(a_.value, f_cb)))
+            if not any(own in t for t in texts):
+                res.findings.append(Finding(
+                    "R-CHAIN", f"{q} returns a chain without the object itself",
+                    f"ModelingObject.{q} has a return (`{norm(r_)[:60]}`) whose chain does not contain "
+                    f"self.mod_objs_computation_chain: when a list is replaced by a list with the same members — in another "
+                    f"order, or with a member repeated — nothing is recomputed, although the order of the steps places the "
+                    f"jobs and a repeated step runs twice", rel_cb, r_.lineno, q))
     for f in res.findings:
         f.extra = dict(f.extra or {})
         f.extra.setdefault("clauses", ["system", "order"] if " system" in f.key else ["order"])
